@@ -236,7 +236,7 @@ Section Hist.
     (fst r = st /\ is_page (snd r) = true) \/ exists q', effective q q' /\ core_ok st q' r.
 
   Lemma effective_refl q : effective q q.
-  Proof. unfold effective, candidates. cbn. auto. Qed.
+  Proof. unfold effective, candidates. repeat split. apply in_or_app. right. cbn. auto. Qed.
 
   Lemma parse_ro_effective q q' : parse_ro q = inr q' -> effective q q'.
   Proof.
@@ -245,7 +245,7 @@ Section Hist.
     - discriminate.
     - repeat match goal with |- context [if ?b then _ else _] => destruct b end; try discriminate.
       intro H. inversion H. unfold effective, candidates, merge_ro. cbn. rewrite E.
-      repeat split. destruct (String.eqb (ro_uri o) ""); cbn; auto.
+      repeat split. apply in_or_app. right. destruct (String.eqb (ro_uri o) ""); cbn; auto.
   Qed.
 
   Ltac split_ifs :=
@@ -726,7 +726,7 @@ Definition ex_info (u : string) : uinfo :=
   {| u_loop := None; u_canon := Some (u, u); u_form := Some u; u_truth := None |}.
 Definition ex_req (u : string) : areq :=
   {| q_client := "web"; q_uri := u; q_rt := "code"; q_mode := ""; q_malformed := false; q_reqobj := RP_None;
-     q_prompt := P_Ok; q_noscope := false; q_hint_bad := false; q_fault := AF_None |}.
+     q_prompt := P_Ok; q_noscope := false; q_hint_bad := false; q_fault := AF_None; q_dups := [] |}.
 
 Example C03_nonvacuous :
   run ex_glob ex_info true EK_Plain [ex_client] []
@@ -742,7 +742,7 @@ Definition ex_ro (u : string) : reqparam :=
                ro_rt := "code"; ro_uri := u; ro_mode := ""; ro_prompt := None |}.
 Definition ex_req_ro (u : string) : areq :=
   {| q_client := "web"; q_uri := "https://app.example.com/cb"; q_rt := "code"; q_mode := ""; q_malformed := false;
-     q_reqobj := ex_ro u; q_prompt := P_Ok; q_noscope := false; q_hint_bad := false; q_fault := AF_None |}.
+     q_reqobj := ex_ro u; q_prompt := P_Ok; q_noscope := false; q_hint_bad := false; q_fault := AF_None; q_dups := [] |}.
 
 Example C03_nonvacuous_request_object :
   run ex_glob ex_info true EK_Plain [ex_client] []
@@ -759,7 +759,7 @@ Definition ex_client_b : client :=
      c_redirects := ["https://b.example.org/cb"]; c_globs := None; c_login := "/login?id=" |}.
 Definition ex_req_fp (cid u : string) : areq :=
   {| q_client := cid; q_uri := u; q_rt := "code"; q_mode := "form_post"; q_malformed := false; q_reqobj := RP_None;
-     q_prompt := P_Ok; q_noscope := false; q_hint_bad := false; q_fault := AF_None |}.
+     q_prompt := P_Ok; q_noscope := false; q_hint_bad := false; q_fault := AF_None; q_dups := [] |}.
 
 Example C03_nonvacuous_write_fault :
   run ex_glob ex_info true EK_Plain [ex_client; ex_client_b] []
@@ -770,4 +770,21 @@ Example C03_nonvacuous_write_fault :
        Callback Legacy (Some 0) CF_None W_Late; Callback Provider None CF_None W_Early]
   = [OLogin "/login?id="; OLogin "/login?id="; ONone; ONone;
      OUndelivered; OForm "https://b.example.org/cb"; OForm "https://app.example.com/cb"; OPage 400 ""].
+Proof. vm_compute. reflexivity. Qed.
+
+(* redirect_uri sent twice: the LAST value is the one that is validated, stored and used for every
+   answer - the error after validation (prompt=none: login_required from the storage) goes to the
+   registered last value, never to the first one; with the values swapped the request is refused *)
+Definition ex_req_dup (first last : string) : areq :=
+  {| q_client := "web"; q_uri := last; q_rt := "code"; q_mode := ""; q_malformed := false; q_reqobj := RP_None;
+     q_prompt := P_None; q_noscope := false; q_hint_bad := false; q_fault := AF_None; q_dups := [first] |}.
+
+Example C03_nonvacuous_repeated_parameter :
+  run ex_glob ex_info true EK_Plain [ex_client] []
+      [Authorize Legacy (ex_req_dup "https://evil.example/cb" "https://sub.example.com/cb") W_None;
+       Authorize Provider (ex_req_dup "https://evil.example/cb" "https://sub.example.com/cb") W_None;
+       Authorize Legacy (ex_req_dup "https://sub.example.com/cb" "https://evil.example/cb") W_None;
+       Authorize Provider (ex_req_dup "https://sub.example.com/cb" "https://evil.example/cb") W_None]
+  = [ORedirect false "login_required" "https://sub.example.com/cb"; ORedirect false "login_required" "https://sub.example.com/cb";
+     OPage 400 "invalid_request"; OPage 400 ""].
 Proof. vm_compute. reflexivity. Qed.
